@@ -58,18 +58,20 @@ func (conn *Conn) close() {
 	}
 
 	verifPoint("close_destroy", conn, nil)
-	/* call FidDestroy for all remaining fids */
-	if op, ok := (conn.Srv.ops).(SrvFidOps); ok {
-		/* requests still being served may change the fid table */
-		conn.Lock()
-		fids := make([]*SrvFid, 0, len(conn.fidpool))
-		for _, fid := range conn.fidpool {
-			fids = append(fids, fid)
-		}
-		conn.Unlock()
-		for _, fid := range fids {
-			op.FidDestroy(fid)
-		}
+	/*
+	 * drop the table's reference to every remaining fid: a fid nobody uses
+	 * is destroyed now, one that a request still being served uses is
+	 * destroyed when that request is done with it
+	 */
+	conn.Lock()
+	conn.closed = true
+	fids := make([]*SrvFid, 0, len(conn.fidpool))
+	for _, fid := range conn.fidpool {
+		fids = append(fids, fid)
+	}
+	conn.Unlock()
+	for _, fid := range fids {
+		fid.unbind()
 	}
 }
 
